@@ -21,6 +21,17 @@
 //!              0xFF0..0xFF5 (ordinary cluster numbers on such a volume); read back, truncate, remove
 //!              (one history in 364 - one per quick run: it is about 20 000 trace lines long)
 //!
+//! Coverage-driven extras (appended after the numbered templates, ids continue; see /verif/COVERAGE.md):
+//!  x0 shortdev     the volume is larger than its device: data writes and directory-cluster zeroing beyond the end of
+//!                  the device transfer 0 bytes (File::write gives 0, write_all / create_dir give WriteZero)
+//!  x1 formaterr    format_volume refusals: a device of 2^32 sectors with total=none, sector sizes the boot sector
+//!                  validation rejects, cluster smaller than the sector, fat= forced against the cluster count, …
+//!  x2 aliasexhaust all thirteen alias candidates of a name taken (NAME~1..~4 and the nine hash candidates), so that
+//!                  the generator has to move on to the next hash value
+//!  x4 sizechain    (opt-in) a size field patched (raw) to promise more than the chain holds / a size without a cluster
+//!  x3 dotdotloop   a `..` entry patched (raw) to point at its own directory: the ancestor walk of rename must end
+//!                  with CorruptedFileSystem, not loop
+//!
 //! Every history ends with: drop handles, list everything (bounded walk), stats, unmount, mount, list everything, unmount.
 use super::*;
 use crate::clock::ClockMode;
@@ -965,11 +976,262 @@ fn one(id: String, seed: u64, n: u64, cat: &Catalogue, rng: &mut SplitMix64, sin
     e.finish(sink);
 }
 
+fn x_shortdev(id: String, seed: u64, cat: &Catalogue, rng: &mut SplitMix64, sink: &mut Sink) {
+    // the volume is described by an explicit sector count; the device ends inside the data area
+    let mut vol = tiny_any(cat, rng, 1024);
+    let bps = vol.bps as u64;
+    let root_secs = (vol.root_entries as u64 * 32 + bps - 1) / bps;
+    let data_off = (vol.reserved as u64 + vol.fats as u64 * vol.spf as u64 + root_secs) * bps;
+    let total = (data_off / bps + vol.clusters as u64 * (vol.cs as u64 / bps)) as u32;
+    vol.fmt.total = Some(total);
+    let present = rng.range(3, 9); // clusters that exist on the device
+    vol.dev_size = data_off + present * vol.cs as u64 + rng.below(2) * (vol.cs as u64 / 2);
+    let cs = vol.cs as usize;
+    let (bits, last_cluster) = (vol.bits, vol.clusters + 1);
+    let root_off = (vol.reserved as u64 + vol.fats as u64 * vol.spf as u64) * bps;
+    let mut e = start(id, seed, vol, ClockMode::Const);
+    if e.cx.mounted {
+        e.mkfile("Z.BIN", content(rng, 9)); // first root entry: long-name slot, short entry at +32
+        let f = e.cx.new_f();
+        if e.cx.step(Op::CreateFile { d: 0, path: b("grows off the device.bin"), new: f }).is_ok() {
+            for _ in 0..present + 2 {
+                let data = content(rng, cs);
+                let r = if rng.chance(1, 2) { e.cx.step(Op::Write { f, data }) } else { e.cx.step(Op::WriteAll { f, data }) };
+                if !r.is_ok() {
+                    break;
+                }
+            }
+            e.cx.step(Op::Write { f, data: content(rng, 5) });
+            e.cx.step(Op::Seek { f, whence: Whence::Start, n: 0 });
+            e.cx.step(Op::ReadAll(f));
+            e.cx.step(Op::Extents(f));
+            e.cx.step(Op::DropF(f));
+        }
+        e.cx.step(Op::Stats);
+        // a directory whose first cluster would lie beyond the device
+        e.try_create_dir(0, "dir off the device");
+        e.mkfile("small.txt", content(rng, 3));
+        e.cx.step(Op::Stats);
+        if bits != 32 {
+            // a file whose (only) cluster lies beyond the end of the device: the device read transfers nothing
+            e.cx.step(Op::Unmount);
+            e.cx.step(Op::Raw(vec![(root_off + 32 + 26, (last_cluster as u16).to_le_bytes().to_vec())]));
+            if e.cx.mount().is_ok() {
+                let f = e.cx.new_f();
+                if e.cx.step(Op::OpenFile { d: 0, path: b("Z.BIN"), new: f }).is_ok() {
+                    e.cx.step(Op::Read { f, n: 5 });
+                    e.cx.step(Op::ReadAll(f));
+                    e.cx.step(Op::DropF(f));
+                }
+            }
+        }
+    }
+    e.finish(sink);
+}
+
+fn x_formaterr(id: String, seed: u64, k: u64, cat: &Catalogue, rng: &mut SplitMix64, sink: &mut Sink) {
+    let base = tiny_any(cat, rng, 1024);
+    let mut vol = base.clone();
+    match k % 8 {
+        0 => {
+            // 2^32 sectors of 512 bytes: one too many for the 32-bit sector count
+            vol.dev_size = 1u64 << 41;
+            vol.fmt = FormatArgs::default();
+        }
+        1 => {
+            // a layout can be found, but the finished boot sector does not pass validation (sector size > 4096)
+            vol.dev_size = 1 << 24;
+            vol.fmt = FormatArgs { bps: 8192, ..FormatArgs::default() };
+        }
+        2 => {
+            vol.fmt.bps = 4096;
+            vol.fmt.bpc = Some(512);
+        }
+        3 => vol.fmt.fat = Some(32),
+        4 => vol.fmt.fat = Some(16),
+        5 => {
+            // a FAT12/16 volume without root directory entries is refused by the validation as well
+            vol.dev_size = 1 << 20;
+            vol.fmt = FormatArgs { root: 0, ..FormatArgs::default() };
+        }
+        6 => {
+            // too small for anything
+            vol.dev_size = 512 * rng.range(1, 10);
+            vol.fmt = FormatArgs::default();
+        }
+        _ => {
+            vol.fmt.total = Some(u32::MAX);
+            vol.fmt.bpc = Some(512);
+        }
+    }
+    let mut cx = Ctx::new(id, "edge", seed, vol, Cfg::new(true, false, ClockMode::Const));
+    let ok = cx.format().is_ok();
+    // whatever format said, a mount attempt follows; after a refusal the old content (nothing) must still be there
+    if cx.mount().is_ok() {
+        cx.step(Op::Stats);
+        cx.step(Op::List(0));
+        cx.step(Op::Unmount);
+    }
+    if !ok {
+        // a proper format afterwards works
+        cx.vol = base.clone();
+        if base.dev_size <= cx.h.dev_size {
+            let mut f = base.fmt.clone();
+            if f.total.is_none() {
+                // the device of this history may be larger than the base volume
+                let bps = base.bps as u64;
+                f.total = Some((base.dev_size / bps) as u32);
+            }
+            if cx.step(Op::Format(f)).is_ok() && cx.mount().is_ok() {
+                cx.step(Op::Stats);
+                cx.step(Op::Unmount);
+            }
+        }
+    }
+    cx.finish(sink);
+}
+
+fn x_aliasexhaust(id: String, seed: u64, cat: &Catalogue, rng: &mut SplitMix64, sink: &mut Sink) {
+    let vol = loop {
+        let v = any_small(cat, rng);
+        if v.bits == 32 || v.root_entries >= 64 {
+            break v;
+        }
+    };
+    let mut e = start(id, seed, vol, ClockMode::Const);
+    if e.cx.mounted {
+        let dir = if rng.chance(1, 2) {
+            e.mkdir("many");
+            "many/"
+        } else {
+            ""
+        };
+        let name = *rng.pick(&["longfilename of mine.txt", "Another Long Name.dat", "x y z long name"]);
+        // (chksum, …, short name) of a fresh generator for this name
+        let (chk, _, _, blen, short) = fatfs::verif_dir::short_name_gen_new(name);
+        let ext: String = short[8..].iter().map(|c| *c as char).collect::<String>().trim_end().to_string();
+        let with_ext = |stem: String| if ext.is_empty() { stem } else { format!("{}.{}", stem, ext) };
+        let p6: String = short[..6.min(blen)].iter().map(|c| *c as char).collect();
+        let p2: String = short[..2.min(blen)].iter().map(|c| *c as char).collect();
+        // the four prefix candidates and the nine hash candidates, created as 8.3 names of their own
+        for i in 1..=4 {
+            e.mkfile(&format!("{}{}", dir, with_ext(format!("{}~{}", p6, i))), Vec::new());
+        }
+        let rounds = rng.range(1, 2);
+        for r in 0..rounds {
+            let h = chk.wrapping_add(r as u16);
+            for i in 1..=9 {
+                e.mkfile(&format!("{}{}", dir, with_ext(format!("{}{:04X}~{}", p2, h, i))), Vec::new());
+            }
+        }
+        e.mkfile(&format!("{}{}", dir, name), content(rng, 6));
+        if dir.is_empty() {
+            e.cx.step(Op::List(0));
+        } else {
+            e.try_open_dir(0, "many");
+        }
+        e.try_open_file(0, &format!("{}{}", dir, name));
+    }
+    e.finish(sink);
+}
+
+fn x_dotdotloop(id: String, seed: u64, cat: &Catalogue, rng: &mut SplitMix64, sink: &mut Sink) {
+    // FAT12/16 volume with 512..1024-byte clusters: the first directory created gets cluster 2
+    let vol = loop {
+        let v = tiny_any(cat, rng, 1024);
+        if v.bits != 32 {
+            break v;
+        }
+    };
+    let bps = vol.bps as u64;
+    let root_secs = (vol.root_entries as u64 * 32 + bps - 1) / bps;
+    let data_off = (vol.reserved as u64 + vol.fats as u64 * vol.spf as u64 + root_secs) * bps;
+    let mut e = start(id, seed, vol, ClockMode::Const);
+    if e.cx.mounted {
+        e.mkdir("a"); // cluster 2: `.` at +0, `..` at +32 (first cluster low word at +26)
+        e.mkdir("mover");
+        e.mkfile("a/f.txt", content(rng, 4));
+        e.cx.step(Op::Unmount);
+        e.cx.step(Op::Raw(vec![(data_off + 32 + 26, vec![2, 0])]));
+        if e.cx.mount().is_ok() {
+            e.try_open_dir(0, "a/..");
+            // the ancestor walk from `a` never reaches the root
+            e.rename(0, "mover", 0, "a/moved in");
+            e.rename(0, "a/f.txt", 0, "f at top.txt"); // files are not walked: fine
+            e.look(&["a"]);
+            // put it right again
+            e.cx.step(Op::Unmount);
+            e.cx.step(Op::Raw(vec![(data_off + 32 + 26, vec![0, 0])]));
+            if e.cx.mount().is_ok() {
+                e.rename(0, "mover", 0, "a/moved in");
+            }
+        }
+    }
+    e.finish(sink);
+}
+
+/// (opt-in, corrupt volume) a directory entry patched so that the size promises more than the chain holds, or a size
+/// without any cluster: seeks beyond the end of the chain stop at the last cluster / at 0.
+fn x_sizechain(id: String, seed: u64, cat: &Catalogue, rng: &mut SplitMix64, sink: &mut Sink) {
+    let vol = loop {
+        let v = tiny_any(cat, rng, 1024);
+        if v.bits != 32 {
+            break v;
+        }
+    };
+    let bps = vol.bps as u64;
+    let cs = vol.cs as u64;
+    let root_off = (vol.reserved as u64 + vol.fats as u64 * vol.spf as u64) * bps;
+    let mut e = start(id, seed, vol, ClockMode::Const);
+    if e.cx.mounted {
+        // first entry of the root: one long-name slot, then the short entry at +32 (cluster at +26, size at +28)
+        e.mkfile("F.BIN", content(rng, cs as usize + 10)); // two clusters
+        e.cx.step(Op::Unmount);
+        let no_chain = rng.chance(1, 2);
+        let mut ws = vec![(root_off + 32 + 28, (5 * cs as u32).to_le_bytes().to_vec())];
+        if no_chain {
+            ws.push((root_off + 32 + 26, vec![0, 0]));
+        }
+        e.cx.step(Op::Raw(ws));
+        if e.cx.mount().is_ok() {
+            let f = e.cx.new_f();
+            if e.cx.step(Op::OpenFile { d: 0, path: b("F.BIN"), new: f }).is_ok() {
+                e.cx.step(Op::Seek { f, whence: Whence::Start, n: 4 * cs as i64 + 3 });
+                e.cx.step(Op::Read { f, n: 10 });
+                e.cx.step(Op::Seek { f, whence: Whence::End, n: 0 });
+                e.cx.step(Op::Seek { f, whence: Whence::Start, n: 1 });
+                e.cx.step(Op::Read { f, n: 10 });
+                e.cx.step(Op::Extents(f));
+                e.cx.step(Op::DropF(f));
+            }
+            e.cx.step(Op::List(0));
+        }
+    }
+    e.finish(sink);
+}
+
 pub fn run(tier: Tier, seed: u64, rng: &mut SplitMix64, n_override: Option<u64>, sink: &mut Sink) {
     let cat = Catalogue::build();
     let n = tier_count(tier, n_override, 364, 7280);
     for i in 1..=n {
         let mut r = rng.fork();
         one(hist_id("edge", seed, i), seed, i, &cat, &mut r, sink);
+    }
+    // coverage-driven extras
+    // x0 / x3 leave the ground the specifications stand on (a device shorter than its volume, a corrupt `..` entry):
+    // the oracles of C01/C02/C03/C05 report what the library does there, so they run only when asked for with the
+    // extra argument `0` (`harness hist edge <tier> <seed> 0` = no numbered histories, all four extras)
+    let all = n_override == Some(0);
+    let extra = if n_override.is_some() && !all { 0 } else { tier.pick(32, 320) };
+    for k in 0..extra {
+        let mut r = rng.fork();
+        let id = hist_id("edge", seed, n + 1 + k);
+        match k % 4 {
+            0 if all && k % 8 == 0 => x_shortdev(id, seed, &cat, &mut r, sink),
+            0 if all => x_sizechain(id, seed, &cat, &mut r, sink),
+            3 if all => x_dotdotloop(id, seed, &cat, &mut r, sink),
+            0 | 1 => x_formaterr(id, seed, (k / 4) * 2 + k % 4, &cat, &mut r, sink),
+            _ => x_aliasexhaust(id, seed, &cat, &mut r, sink),
+        }
     }
 }
